@@ -410,9 +410,8 @@ def isHexColon (c : Char) : Bool := isHexDigit c || c = ':'
 /-- `[0-9a-fA-F]{1,4}` -/
 def isH (p : Str) : Bool := 1 ≤ p.length && p.length ≤ 4 && p.all isHexDigit
 
-/-- `opt1 | opt3 … opt11` of `_IPV6_REGEX_STR`, whole text -/
-def matchHexForm (a : Str) : Bool :=
-  let parts := splitOn ':' a
+/-- `opt1 | opt3 … opt11` of `_IPV6_REGEX_STR` on the colon-separated parts of the whole text -/
+def hexFormParts (parts : List Str) : Bool :=
   match parts with
   | [[], [], []] => true                                                          -- opt11  ::
   | [] :: [] :: rest => rest.all isH && 1 ≤ rest.length && rest.length ≤ 7         -- opt9   ::H(:H)*
@@ -425,6 +424,9 @@ def matchHexForm (a : Str) : Bool :=
         if lo = [[]] then 1 ≤ hi.length && hi.length ≤ 7                          -- opt10  (H:)+:
         else lo.all isH && 1 ≤ hi.length && 1 ≤ lo.length && hi.length + lo.length ≤ 7   -- opt3 … opt8
       | _ => false
+
+/-- `opt1 | opt3 … opt11` of `_IPV6_REGEX_STR`, whole text -/
+def matchHexForm (a : Str) : Bool := hexFormParts (splitOn ':' a)
 
 /-- `opt2`: `[0-9a-fA-F\:]+?\d+\.\d+\.\d+\.\d+`, whole text: some non-empty prefix of
 hex digits / colons is followed by a dotted quad that ends the text -/
